@@ -178,3 +178,115 @@ Definition panic_site_map : list (site * string) := [
   (("src/sign.rs", "new", "panic-capable", "rng.fill(&mut seed).unwrap();"), "modelled in Model/Sign.v (seed length, pubkey, signature length)");
   (("src/sign.rs", "from_seed", "panic-capable", "let secret_key = SecretKey::try_from(seed).expect(""invalid seed"");"), "modelled in Model/Sign.v (seed length, pubkey, signature length)")
 ].
+
+(* ---- numeric literals ----
+   The reviewed copy of Gen/Sites.v num_literals: the integer literals of every modelled function, in
+   source order, as they were when the model was written against them (where each one lives in the
+   model is noted in DESIGN.md §0.6). `lits_for f num_literals = lits_for f reviewed_literals` is
+   re-checked per file in the property files that depend on that file: a changed, added or removed
+   number in a modelled function breaks the obligation until the model is revisited. *)
+From Coq Require Import NArith.
+Definition lits_for (f : string) (l : list (string * string * list N)) : list (string * list N) :=
+  map (fun x => (snd (fst x), snd x)) (filter (fun x => String.eqb (fst (fst x)) f) l).
+
+(* which source files each property's model stands for *)
+Definition files_C01 : list string := ["src/bin/roughenough-client.rs"; "src/merkle.rs"; "src/sign.rs"].
+Definition files_C02 : list string := ["src/grease.rs"; "src/responder.rs"; "src/key/online.rs"; "src/merkle.rs"].
+Definition files_C03 : list string := ["src/bin/roughenough-client.rs"; "src/message.rs"].
+Definition files_C04 : list string := ["src/merkle.rs"].
+Definition files_C05 : list string := ["src/message.rs"].
+Definition files_C06 : list string := ["src/message.rs"].
+Definition files_C07 : list string := ["src/request.rs"; "src/lib.rs"].
+Definition files_C08 : list string := ["src/server.rs"; "src/responder.rs"; "src/request.rs"; "src/grease.rs"].
+Definition files_C09 : list string := ["src/server.rs"; "src/responder.rs"].
+Definition files_C10 : list string := ["src/key/longterm.rs"; "src/key/online.rs"].
+Definition files_C11 : list string := ["src/key/online.rs"].
+Definition files_C12 : list string := ["src/request.rs"; "src/version.rs"].
+Definition files_C13 : list string := ["src/sign.rs"].
+Definition files_C14 : list string := ["src/kms/envelope.rs"; "src/kms/mod.rs"].
+Definition files_C15 : list string := ["src/bin/roughenough-server.rs"; "src/server.rs"; "src/config/mod.rs"].
+Definition files_C16 : list string := ["src/config/mod.rs"; "src/config/file.rs"; "src/config/environment.rs"].
+Definition files_C17 : list string := ["src/stats/per_client.rs"; "src/stats/mod.rs"; "src/stats/reporter.rs"].
+Definition files_C18 : list string := ["src/bin/roughenough-server.rs"; "src/server.rs"].
+Definition files_C19 : list string := ["src/bin/roughenough-server.rs"; "src/stats/reporter.rs"].
+Definition files_C20 : list string := ["src/config/mod.rs"; "src/config/file.rs"].
+
+Definition reviewed_literals : list (string * string * list N) := [
+  ("src/request.rs", "-", [64; 32]%N);
+  ("src/request.rs", "is_rfc_request", [0]%N);
+  ("src/request.rs", "nonce_from_rfc_request", [8; 12; 12]%N);
+  ("src/request.rs", "get_supported_version", [4; 4]%N);
+  ("src/message.rs", "-", [8]%N);
+  ("src/message.rs", "from_bytes", [4; 4; 0; 0; 1; 2; 1024]%N);
+  ("src/message.rs", "single_tag_message", [8; 4; 4]%N);
+  ("src/message.rs", "multi_tag_message", [1; 0; 1; 4; 0; 0; 4; 0; 0]%N);
+  ("src/message.rs", "encode_framed", [4]%N);
+  ("src/message.rs", "encode", [1; 0; 1]%N);
+  ("src/message.rs", "encoded_size", [4; 2; 0; 4; 1; 4]%N);
+  ("src/message.rs", "calculate_padding_length", [1024; 0; 1024; 1; 4]%N);
+  ("src/message.rs", "to_string", [0; 2; 1; 2; 1]%N);
+  ("src/merkle.rs", "push_leaf", [0]%N);
+  ("src/merkle.rs", "get_paths", [0; 2; 0; 1; 1; 1; 2; 32]%N);
+  ("src/merkle.rs", "compute_root", [0; 0; 0; 1; 1; 1; 2; 0; 0; 1; 1; 2; 0; 1; 2; 1; 2; 1; 1]%N);
+  ("src/merkle.rs", "is_empty", [0]%N);
+  ("src/merkle.rs", "node_len", [32]%N);
+  ("src/merkle.rs", "root_from_paths", [0; 1; 0; 1]%N);
+  ("src/merkle.rs", "finalize_output", [0]%N);
+  ("src/key/online.rs", "make_dele", [0; 8; 255; 8]%N);
+  ("src/key/online.rs", "classic_midp", [1000000; 1000]%N);
+  ("src/key/online.rs", "make_srep", [0; 4; 0; 8; 5000000; 5]%N);
+  ("src/key/longterm.rs", "calc_srv_value", [0]%N);
+  ("src/responder.rs", "send_responses", [0]%N);
+  ("src/responder.rs", "make_response", [0; 4]%N);
+  ("src/server.rs", "-", [0; 1; 2; 65536]%N);
+  ("src/server.rs", "new", [10; 100; 0; 65536]%N);
+  ("src/server.rs", "bind_health_listener", [1024]%N);
+  ("src/server.rs", "collect_requests", [0]%N);
+  ("src/server.rs", "send_client_stats", [0]%N);
+  ("src/server.rs", "compute_delay", [1; 0; 0; 255; 1; 1]%N);
+  ("src/grease.rs", "new", [0; 100]%N);
+  ("src/grease.rs", "corrupt_response_signature", [0]%N);
+  ("src/sign.rs", "-", [1024]%N);
+  ("src/sign.rs", "new", [32; 0; 32]%N);
+  ("src/kms/envelope.rs", "-", [2; 2]%N);
+  ("src/kms/envelope.rs", "vec_zero_filled", [0; 0]%N);
+  ("src/kms/envelope.rs", "decrypt_seed", [0]%N);
+  ("src/kms/envelope.rs", "encrypt_seed", [0; 0]%N);
+  ("src/kms/mod.rs", "from", [12; 16; 32]%N);
+  ("src/config/mod.rs", "-", [64; 600]%N);
+  ("src/config/mod.rs", "is_valid_config", [0; 1; 64; 50; 0]%N);
+  ("src/config/file.rs", "new", [1; 0; 0; 0]%N);
+  ("src/config/environment.rs", "new", [0; 0]%N);
+  ("src/stats/per_client.rs", "new", [0]%N);
+  ("src/stats/per_client.rs", "with_limit", [0]%N);
+  ("src/stats/per_client.rs", "too_many_entries", [1]%N);
+  ("src/stats/per_client.rs", "add_ietf_request", [1]%N);
+  ("src/stats/per_client.rs", "add_classic_request", [1]%N);
+  ("src/stats/per_client.rs", "add_invalid_request", [1]%N);
+  ("src/stats/per_client.rs", "add_failed_send_attempt", [1]%N);
+  ("src/stats/per_client.rs", "add_retried_send_attempt", [1]%N);
+  ("src/stats/per_client.rs", "add_health_check", [1]%N);
+  ("src/stats/per_client.rs", "add_rfc_response", [1]%N);
+  ("src/stats/per_client.rs", "add_classic_response", [1]%N);
+  ("src/stats/per_client.rs", "clear", [0]%N);
+  ("src/stats/mod.rs", "-", [5000000]%N);
+  ("src/stats/mod.rs", "new", [0; 0; 0; 0; 0; 0; 0; 0; 0]%N);
+  ("src/stats/reporter.rs", "processing_loop", [1]%N);
+  ("src/stats/reporter.rs", "receive_client_stats", [0; 1; 0]%N);
+  ("src/stats/reporter.rs", "report", [9; 0; 1]%N);
+  ("src/version.rs", "data", [0; 0; 0; 0; 12; 0; 0; 128]%N);
+  ("src/lib.rs", "roughenough_version", [1024; 1500; 32; 64; 0; 1]%N);
+  ("src/bin/roughenough-client.rs", "create_nonce", [0; 64; 0; 32]%N);
+  ("src/bin/roughenough-client.rs", "make_request", [0; 0; 0; 0]%N);
+  ("src/bin/roughenough-client.rs", "receive_response", [0; 12]%N);
+  ("src/bin/roughenough-client.rs", "verify_framing", [0; 8; 12]%N);
+  ("src/bin/roughenough-client.rs", "main", [0; 13; 0; 0; 4096; 0; 10; 6; 10; 6; 10; 3; 0]%N);
+  ("src/bin/roughenough-server.rs", "display_config", [0]%N);
+  ("src/bin/roughenough-server.rs", "main", [2; 1; 1; 1; 1; 2; 0; 0]%N)
+].
+
+
+
+(* the literals of the given files are today the reviewed ones *)
+Definition literals_ok (files : list string) : Prop :=
+  Forall (fun f => lits_for f num_literals = lits_for f reviewed_literals) files.
